@@ -155,8 +155,9 @@ CHECKS.update({
              "(17-digit number formatting, escaping), validity of the written document and the libsbml parser are exercised on witness "
              "replays only.  Notes values are plain strings; "
              "model history / creators, kinetic-law legacy encodings, fbc-v1 conversion and files on disk are outside.  CrossHair's "
-             "'Not confirmed' is reported as 'no counterexample within the budget', not as exhaustive.  Known finding: ids in which an "
-             "underscore meets digits. " + NOTE_COMMON, ref="10.5",
+             "'Not confirmed' is reported as 'no counterexample within the budget', not as exhaustive.  Known findings: ids in which an "
+             "underscore meets digits; an empty objective is written without listOfFluxObjectives (rejected by the validator). "
+             + NOTE_COMMON, ref="10.5",
         technique="dynamic symbolic execution of the real SBML reader/writer on z3 (vsym) with a documented libsbml stand-in, witnesses "
                   "replayed on the real libsbml; CrossHair symbolic strings + exhaustive class-alphabet case split for the id escaping"),
     "C11": dict(
